@@ -175,9 +175,12 @@ impl Writer {
             _ => {},
         }
         if rng.chance(1, 4) { ops.push(WOp::Len); }
-        for _ in 0..rng.below(3) { ops.push(WOp::Close); }
+        // A parent header obliges the parent to close the writer (close_with_header); otherwise close or plain drop.
+        let header: Vec<u64> = if kind == WKind::Raw && rng.chance(1, 4) { vec![rng.wide()] } else { Vec::new() };
+        let closes = if header.is_empty() { rng.below(3) } else { 1 + rng.below(2) };
+        for _ in 0..closes { ops.push(WOp::Close); }
         Writer {
-            kind, width, buf_len, header: if kind == WKind::Raw && rng.chance(1, 4) { vec![rng.wide()] } else { Vec::new() }, ops,
+            kind, width, buf_len, header, ops,
             chunk: if rng.chance(1, 2) { Chunk::Unbounded } else { Chunk::generate(rng) },
             eintr: Vec::new(), fault: None,
             real: if rng.chance(1, 6) { RealMode::Plain } else { RealMode::Sim },
